@@ -750,7 +750,10 @@ pub fn cases(seed: u64, tier: &str) -> Vec<CaseSpec> {
                         _ => specs[bad].tx = 4,
                     }
                     let order: Vec<usize> = (0..parents.len()).collect();
-                    v.push(CaseSpec { specs, orders: vec![order], prune_after: 50 });
+                    // every second case on a node that prunes block data a few blocks below its tip: the blocks that have to be
+                    // wound back after the failure (and the fork's own lower blocks) may have lost their transactions meanwhile
+                    let prune_after = if (j + kind as usize + m) % 2 == 0 { 50 } else { 1 + ((j + shared) % 3) as u64 };
+                    v.push(CaseSpec { specs, orders: vec![order], prune_after });
                 }
             }
         }
